@@ -127,3 +127,38 @@ Fixpoint lrun (s : lworld) (ls : list label) : list outcome * lworld :=
       | None => let '(os, sf) := lrun s ls' in (Refused :: os, sf)
       end
   end.
+
+(* ---------- session-step granularity, as a real process experiences it ---------- *)
+(* __enter__ = acquire + begin (atomic for an observer); __exit__ = end + release *)
+Inductive mlabel := MEnter (p i : nat) (w : bool) | MDo (p : nat) (o : op) | MExit (p : nat).
+
+Definition mstep (s : lworld) (m : mlabel) : lworld * outcome :=
+  match m with
+  | MEnter p i w =>
+      match lstep s (LAcq p w) with
+      | None => (s, Refused)
+      | Some (s1, _) => match lstep s1 (LOpen p i) with Some (s2, r) => (s2, Done r) | None => (s, Refused) end
+      end
+  | MDo p o => match lstep s (LDo p o) with Some (s', r) => (s', Done r) | None => (s, Refused) end
+  | MExit p =>
+      match lstep s (LClose p) with
+      | Some (s1, _) => match lstep s1 (LRel p) with Some (s2, r) => (s2, Done r) | None => (s1, Refused) end
+      | None => (s, Refused)
+      end
+  end.
+
+Fixpoint mrun (s : lworld) (ms : list mlabel) : list outcome * lworld :=
+  match ms with
+  | [] => ([], s)
+  | m :: ms' => let '(s', o) := mstep s m in let '(os, sf) := mrun s' ms' in (o :: os, sf)
+  end.
+
+Definition outcome_eqb (a b : outcome) : bool :=
+  match a, b with Done x, Done y => res_eqb x y | Refused, Refused => true | _, _ => false end.
+
+(* case = ((initial file, number of processes (process p owns handle p), macro labels), (observed outcomes, final file)) *)
+Definition mcase := ((bytes * nat * list mlabel) * (list outcome * bytes))%type.
+Definition check_mcase (c : mcase) : bool :=
+  let '((f0, n, ms), (eos, ef)) := c in
+  let '(os, sf) := mrun (mkl (f0, repeat h0 n) (repeat p0 n) (seq 0 n)) ms in
+  all2 outcome_eqb os eos && beq (fst (lw sf)) ef.
